@@ -202,10 +202,19 @@ class Case:
         ids = B.closure(victim)
         if kind == "Property":
             ids = {victim.id}
-        how = rng.choice(["name", "id", "index", "obj"]) if kind not in ("Feature",) else rng.choice(["id", "index"])
+        how = rng.choice(["name", "id", "index", "obj"]) if kind not in ("Feature",) else rng.choice(["id", "index", "data_id"])
         lst = list(cont)
         pos = [x.id for x in lst].index(victim.id)
-        key = {"name": getattr(victim, "name", None), "id": victim.id, "index": pos, "obj": victim}[how]
+        data_id = None
+        if how == "data_id":
+            # a feature may be addressed by the id of its data object - that removes the FEATURE, never the data object
+            try:
+                data_id = victim.data.id
+                if sum(1 for x in lst if x.data.id == data_id) != 1:
+                    how = "id"
+            except Exception:
+                how = "id"
+        key = {"name": getattr(victim, "name", None), "id": victim.id, "index": pos, "obj": victim, "data_id": data_id}[how]
         same_name_elsewhere = False
         if kind not in ("Feature",):
             nm = victim.name
@@ -245,6 +254,47 @@ class Case:
         for path, what, val in out[:6]:
             ek = path.split(":")[0]
             ctx.violation("delete:%s:%s:%s.%s" % (kind, what, ek, field_of(path)), dict(info, where=path, detail=val), dict(self.rep, upto=di))
+
+    def judged_refused_delete(self, B, di):
+        """Deleting from a container by the id of something that is not a member (an entity of the same kind in another block,
+        an entity of another kind) deletes nothing, anywhere."""
+        nix, rng, ctx, f = self.nix, self.rng, self.ctx, B.f
+        from .. import snapshot
+        blocks = list(f.blocks)
+        if not blocks:
+            return
+        b = rng.choice(blocks)
+        cname = rng.choice(["data_arrays", "tags", "multi_tags", "groups", "sources", "data_frames"])
+        cont = getattr(b, cname)
+        members = {x.id for x in cont}
+        pool = []
+        for b2 in blocks:
+            for cn in ("data_arrays", "tags", "multi_tags", "groups", "sources", "data_frames"):
+                for x in getattr(b2, cn):
+                    if x.id not in members:
+                        pool.append(("same_kind_other_block" if cn == cname else "other_kind", x.id))
+        pool += [("section", s.id) for s in B.all_sections()[:4]]
+        if not pool:
+            return
+        what, fid = rng.choice(pool)
+        pre = snapshot.snapshot(nix, f)
+        info = dict(self.rep, deletion=di, container="Block." + cname, foreign_id_of=what)
+        self.sigs.append(("refused_delete", cname, what))
+        try:
+            del cont[fid]
+            ctx.violation("delete_by_non_member_id_accepted:%s:%s" % (cname, what), info, dict(self.rep, upto=di))
+        except Exception:
+            ctx.count("non_member_deletes_refused")
+        post = snapshot.snapshot(nix, f)
+        d = snapshot.diff(pre, post, limit=3)
+        if d:
+            x = d[0]
+            ctx.violation("delete_by_non_member_id_changed_file:%s:%s:%s.%s" % (cname, what, x["entity"].split(":")[0], x.get("field") or x.get("change")),
+                          dict(info, diff=x), dict(self.rep, upto=di))
+            # keep the shadow usable: whatever vanished is gone
+            gone = {k.split(":", 1)[1] for k in pre.table if k not in post.table and k != "File:"}
+            B.sh.kill(gone)
+            self.dead |= gone
 
     def judged_unlink(self, B, di):
         """Removing a link-list entry or clearing a metadata link never deletes the target; nothing else changes."""
@@ -318,7 +368,10 @@ class Case:
             for di in range(n):
                 if upto is not None and di > upto:
                     break
-                if rng.random() < 0.25:
+                r = rng.random()
+                if r < 0.15:
+                    self.judged_refused_delete(B, di)
+                elif r < 0.4:
                     self.judged_unlink(B, di)
                 else:
                     self.judged_delete(B, di)
